@@ -106,6 +106,15 @@ Proof.
   - intros m Hm. cbn. apply HP. exact Hm.
 Qed.
 
+Lemma lift_opt_bind_c {T A B} (P : mem T -> Prop) (o : option A) (f : A -> M T B) Q (I : mem T -> Prop) :
+  (o = None -> forall m, P m -> I m) -> (forall r, o = Some r -> triple P (f r) Q I) ->
+  triple P (bind (lift_opt o) f) Q I.
+Proof.
+  intros HP Hf. destruct o as [r|]; cbn [lift_opt].
+  - apply triple_bind_ret_l. apply Hf. reflexivity.
+  - intros m Hm. cbn. apply HP; auto.
+Qed.
+
 (** * List facts used by the primitive specifications *)
 
 Lemma length_splice {T} (l : list T) i v :
